@@ -356,6 +356,7 @@ type opKind struct {
 var opKinds = []opKind{
 	{"connect", 3}, {"join", 2}, {"subscribe", 14}, {"unsubscribe", 5}, {"subscribe_no_ev", 2},
 	{"local_set_change", 12}, {"local_set_same", 4}, {"remote_write_change", 12}, {"remote_write_same", 4},
+	{"local_set_clamped", 3}, {"remote_write_clamped", 3},
 	{"remote_write_readonly", 2}, {"combined_put", 7}, {"read", 3}, {"close_fin", 3}, {"close_rst", 3},
 }
 
@@ -570,6 +571,50 @@ func (h *history) step(maxConns int) {
 			h.fenceAll(kind, c, []change{{xi, v}}, nil)
 		} else {
 			h.fenceAll(kind, c, nil, []int{xi})
+		}
+	case "local_set_clamped", "remote_write_clamped":
+		// a value beyond a declared bound is clamped to the bound: an EVENT (carrying the bound) is due only if
+		// that changes the value; writing beyond the bound the value already sits on is a same-value write
+		remote := kind == "remote_write_clamped"
+		xi := h.pickChar(func(i int, x *chr) bool {
+			return (x.Kind == "int" || x.Kind == "float") && x.hcObj.MaxValue != nil && x.hcObj.MinValue != nil && (!remote || x.Wr)
+		}, true)
+		if xi < 0 {
+			h.step(maxConns)
+			return
+		}
+		x := h.f.chars[xi]
+		sent, expect := x.hi+13, x.hi
+		if h.rnd.Intn(2) == 0 {
+			sent, expect = x.lo-4, x.lo
+		}
+		// half of the time first move the value onto that bound, so that the clamped write is a same-value write
+		if h.rnd.Intn(2) == 0 && !sameJSON(x.cur, expect) {
+			h.logf("%s (preparation): application sets %s from %s to the bound %s", kind, x.Key, showVal(x.cur), showVal(expect))
+			x.set(expect)
+			x.cur = expect
+			h.fenceAll("local_set_change", nil, []change{{xi, expect}}, nil)
+			if h.violated {
+				return
+			}
+		}
+		var c *mconn
+		if remote {
+			c = anyConn()
+			h.logf("%s: c%d PUT %s value %s (beyond the declared bound %s; current %s)", kind, c.Slot, x.Key, showVal(sent), showVal(expect), showVal(x.cur))
+			if _, _, ok := h.put(c, []refctl.CharValue{{AID: x.AID, IID: x.IID, Value: refctl.RawJSON(sent)}}); !ok {
+				return
+			}
+		} else {
+			h.logf("%s: application sets %s to %s (beyond the declared bound %s; current %s)", kind, x.Key, showVal(sent), showVal(expect), showVal(x.cur))
+			x.set(sent)
+		}
+		if sameJSON(x.cur, expect) {
+			h.r.Count("clamped_writes_that_do_not_change_the_value", 1)
+			h.fenceAll(kind, c, nil, []int{xi})
+		} else {
+			x.cur = expect
+			h.fenceAll(kind, c, []change{{xi, expect}}, nil)
 		}
 	case "remote_write_readonly":
 		c := anyConn()
